@@ -6,6 +6,7 @@ import json
 import os
 import re
 import shutil
+import subprocess
 import time
 
 from . import common as C
@@ -101,6 +102,39 @@ def run(tools, seed, tier):
                 fx = json.loads(l)
                 facts[fx["id"]] = fx
             t_facts = time.time() - t0
+            # regeneration over moq's own output (C15), on private copies of in-place cases
+            regen = {}
+            sel = [o for o in obs if o["kind"] == "out" and byid[o["id"]]["pkg"] == ""
+                   and byid[o["id"]]["dir"].startswith(root)
+                   and (set(byid[o["id"]].get("tags") or []) & {"adv", "shape"} or tier == "thorough")]
+
+            def regen_one(o):
+                c = byid[o["id"]]
+                dst = os.path.join(root, "regen", re.sub(r"\W", "_", c["id"]))
+                shutil.copytree(c["dir"], dst)
+                flags = (["-stub"] if c["stub"] else []) + (["-skip-ensure"] if c["skip"] else []) + \
+                        (["-with-resets"] if c["resets"] else [])
+                res = {}
+                for pos, name in (("last", "zz_moq_verif.go"), ("first", "a_moq_verif.go")):
+                    outp = os.path.join(dst, name)
+                    runs = []
+                    for k in range(2):
+                        p = subprocess.run([tools.moq, "-out", name] + flags + ["."] + c["args"], cwd=dst, env=C.goenv(),
+                                           stdout=subprocess.PIPE, stderr=subprocess.PIPE, text=True, timeout=120)
+                        runs.append((p.returncode, open(outp).read() if os.path.exists(outp) else None, p.stderr[:300]))
+                    if runs[0][0] == 0:
+                        res[pos] = dict(same=(runs[1][0] == 0 and runs[0][1] == runs[1][1]), rc2=runs[1][0],
+                                        err2=runs[1][2])
+                    if os.path.exists(outp):
+                        os.remove(outp)
+                shutil.rmtree(dst, ignore_errors=True)
+                return o["id"], res
+
+            import concurrent.futures
+            with concurrent.futures.ThreadPoolExecutor(max_workers=C.NCPU) as ex:
+                for cid, res in ex.map(regen_one, sel):
+                    regen[cid] = res
+            t_regen = time.time() - t0
             verdicts, skipped, errors = l2.evaluate(obs, "l2", facts)
             t_coq = time.time() - t0
             # checkers on the lifted programs
@@ -138,6 +172,7 @@ def run(tools, seed, tier):
                 res["cases"].append(dict(
                     case=c, kind=o["kind"], text=o["text"], ms=o.get("ms"),
                     repeats=o.get("repeats", 0), nondet=o.get("nondet"), fmt=o.get("fmt"), sigs=o.get("sigs"),
+                    regen=regen.get(o["id"]),
                     src_pkg=dict(path=mi.group(1), name=mi.group(2)) if mi else {},
                     src_specs=src_specs(inp),
                     pkg_names={strip_vendor(a): b for a, b in pk},
